@@ -170,6 +170,13 @@ def _run_all(fx):
     r = engine.Run('ST', 'thorough', fx)
     engines.moved_in_loop(r, fns)
     engines.copy_sources_advance(r, fns)
+    engines.cursor_offset_pairs(r, fns)
+    engines.sorted_precondition(r, fns, {})
+    engines.signed_difference_compares(r, fns)
+    import p09
+    for f in fns:
+        for l, c in p09._reversing_loops(f):
+            rep.add(f.norm.split('::')[-1])
     rep |= _names(r)
     uni = {f.norm.split('::')[-1] for f in fns if f.norm.split('::')[-1].startswith(('bad_', 'good_'))}
     expect('R16/R4 paths+helpers', rep, uni)
